@@ -34,7 +34,11 @@ MANIFEST = {
             "single_batch_volumes_any_order for every k when batch size >= every volume); swapped batches of one volume give "
             "silently permuted slices for every k >= 2 (window_two_can_misorder), interleaved volumes are silently lost "
             "(filename_change_discards_partial_volume, interleaved_volumes_are_lost). Tied to the code by translated kernels "
-            "(write window, counter, yield condition, filename guard), source-order tables of the loop, of _process_output, of "
+            "(write window, counter, yield condition, filename guard) and fact tables read from a NORMALISED source (private "
+            "helpers inlined, single-assignment locals resolved, slice objects / len(shape) / tuple arithmetic canonicalised, "
+            "if-elif-else == early returns == conditional expressions read as decision trees, the last_filename tests evaluated "
+            "abstractly for first batch / same file / other file, roles FILENAME / ITER / SCALE / RES / OUT / TGT found by data "
+            "flow instead of by the names of locals) of the loop, of _process_output, of "
             "predict / build_loader / build_batch_sampler / _compute_resolution / write_output_to_h5, and (phase 3) tables of the "
             "batch keys the loop reads (slice_no is not among them), of the curr_target / loss_dict_list / yield statements, of "
             "the state written outside locals (none, except predict's ndim / checkpointer; decided predicate), of the callers "
@@ -69,8 +73,9 @@ MANIFEST = {
 }
 TRUSTED = [
     "Lean 4.33 kernel; axioms ⊆ {propext, Classical.choice, Quot.sound}",
-    "harness/translate recipes c14 (Python AST -> Lean): write window, counter, yield condition, filename guard, stage tables, "
-    "loop-reads / target / state-writes / caller tables",
+    "harness/translate recipes c14, c14_norm, c14_loop (Python AST -> Lean): write window, counter, yield condition, filename "
+    "guard, normalisation (helper inlining, local resolution, canonical spellings, decision trees), stage / loop-reads / target / "
+    "state-writes / caller tables",
     "torch slice assignment / broadcasting / default_collate semantics as encoded by writeSlice, zipWith and loaderBatches",
     "torch DataLoader (default in_order=True) yields batches in the order of the batch sampler for any num_workers (observed with "
     "0..2 workers, prefetch 1/2/4); with in_order=False it has num_workers x prefetch_factor batches in flight (observed orders are "
